@@ -20,6 +20,7 @@ import (
 	"google.golang.org/protobuf/types/known/timestamppb"
 
 	"github.com/smart-core-os/sc-api/go/traits"
+	"github.com/smart-core-os/sc-api/go/types"
 	"github.com/smart-core-os/sc-golang/internal/testproto"
 	"github.com/smart-core-os/sc-golang/pkg/cmp"
 	"github.com/smart-core-os/sc-golang/pkg/resource"
@@ -231,7 +232,18 @@ func bases() []proto.Message {
 		OneofDefault:       &testproto.TestAllTypes_OneofDefaultInt32{OneofDefaultInt32: 4},
 	}
 	change := &traits.PullOnOffResponse_Change{Name: "n", ChangeTime: &timestamppb.Timestamp{Seconds: t0}, OnOff: &traits.OnOff{State: traits.OnOff_ON}}
-	return []proto.Message{&T{}, full, change}
+	// a message whose NAME merely ends in "Change" (sc-api has AudioLevelChange, HealthStateChange): its change_time
+	// is a field like any other - only the nested "Change" messages of the Pull responses are exempt
+	alc := &types.AudioLevelChange{Name: "n", ChangeTime: &timestamppb.Timestamp{Seconds: t0}, Level: &types.AudioLevel{Gain: 4}}
+	return []proto.Message{&T{}, full, change, alc}
+}
+
+func am(f func(c *types.AudioLevelChange)) func(proto.Message) {
+	return func(m proto.Message) {
+		if c, ok := m.(*types.AudioLevelChange); ok {
+			f(c)
+		}
+	}
 }
 
 type mut struct {
@@ -392,14 +404,27 @@ func muts() []mut {
 		{"unknown=A'A", tm(func(t *T) { t.ProtoReflect().SetUnknown(unk([2]uint64{1000, 2}, [2]uint64{1000, 1})) })},
 		// a field number that comes twice with another number in between (records of one number are compared as a
 		// group, in their order; the order of the groups does not matter)
-		{"unknown=ABA'", tm(func(t *T) { t.ProtoReflect().SetUnknown(unk([2]uint64{1000, 1}, [2]uint64{1001, 2}, [2]uint64{1000, 3})) })},
-		{"unknown=BAA'", tm(func(t *T) { t.ProtoReflect().SetUnknown(unk([2]uint64{1001, 2}, [2]uint64{1000, 1}, [2]uint64{1000, 3})) })},
-		{"unknown=AA'B", tm(func(t *T) { t.ProtoReflect().SetUnknown(unk([2]uint64{1000, 1}, [2]uint64{1000, 3}, [2]uint64{1001, 2})) })},
-		{"unknown=AA'A'", tm(func(t *T) { t.ProtoReflect().SetUnknown(unk([2]uint64{1000, 1}, [2]uint64{1000, 3}, [2]uint64{1000, 3})) })},
-		{"unknown=A'BA", tm(func(t *T) { t.ProtoReflect().SetUnknown(unk([2]uint64{1000, 3}, [2]uint64{1001, 2}, [2]uint64{1000, 1})) })},
+		{"unknown=ABA'", tm(func(t *T) {
+			t.ProtoReflect().SetUnknown(unk([2]uint64{1000, 1}, [2]uint64{1001, 2}, [2]uint64{1000, 3}))
+		})},
+		{"unknown=BAA'", tm(func(t *T) {
+			t.ProtoReflect().SetUnknown(unk([2]uint64{1001, 2}, [2]uint64{1000, 1}, [2]uint64{1000, 3}))
+		})},
+		{"unknown=AA'B", tm(func(t *T) {
+			t.ProtoReflect().SetUnknown(unk([2]uint64{1000, 1}, [2]uint64{1000, 3}, [2]uint64{1001, 2}))
+		})},
+		{"unknown=AA'A'", tm(func(t *T) {
+			t.ProtoReflect().SetUnknown(unk([2]uint64{1000, 1}, [2]uint64{1000, 3}, [2]uint64{1000, 3}))
+		})},
+		{"unknown=A'BA", tm(func(t *T) {
+			t.ProtoReflect().SetUnknown(unk([2]uint64{1000, 3}, [2]uint64{1001, 2}, [2]uint64{1000, 1}))
+		})},
 		// the Change message
 		{"change_time=nil", cm(func(c *traits.PullOnOffResponse_Change) { c.ChangeTime = nil })},
 		{"change_time+1s", cm(func(c *traits.PullOnOffResponse_Change) { c.ChangeTime = &timestamppb.Timestamp{Seconds: t0 + 1} })},
+		{"audio-level-change.change_time=nil", am(func(c *types.AudioLevelChange) { c.ChangeTime = nil })},
+		{"audio-level-change.change_time+1s", am(func(c *types.AudioLevelChange) { c.ChangeTime = &timestamppb.Timestamp{Seconds: t0 + 1} })},
+		{"audio-level-change.gain=5", am(func(c *types.AudioLevelChange) { c.Level = &types.AudioLevel{Gain: 5} })},
 		{"change.name=m", cm(func(c *traits.PullOnOffResponse_Change) { c.Name = "m" })},
 		{"change.onoff=OFF", cm(func(c *traits.PullOnOffResponse_Change) { c.OnOff = &traits.OnOff{State: traits.OnOff_OFF} })},
 		{"change.onoff=nil", cm(func(c *traits.PullOnOffResponse_Change) { c.OnOff = nil })},
